@@ -124,11 +124,20 @@ func init() {
 		}
 		ops := []string{"balance", "history", "propose", "add", "stream", "truncate"}
 		for _, op := range ops {
-			for after := 0; after <= depth+1; after++ {
+			for after := -1; after <= depth+1; after++ {
 				for _, slow := range []bool{false, true} {
+					if after < 0 && slow {
+						continue
+					}
 					w, n := buildChain(c, depth, spice.Melange{Currency: 100})
 					info := map[string]interface{}{"section": "wedge", "op": op, "cancel_after": after, "slow": slow, "depth": depth}
-					ctx := newCountCtx(after, slow)
+					var ctx context.Context = newCountCtx(after, slow)
+					if after < 0 {
+						// the caller was gone before the call: an ordinary context, cancelled already (Err() set, Done() closed)
+						rctx, cancel := context.WithCancel(context.Background())
+						cancel()
+						ctx = rctx
+					}
 					c.Mark(info)
 					var r string
 					switch op {
